@@ -46,6 +46,9 @@ type RespScript struct {
 	// Barrier: after writing part #BarrierAfter (0-based) the backend flushes and waits on the
 	// exchange's barrier channel before continuing (streaming sub-check). -1 = none.
 	BarrierAfter int `json:"barrier_after"`
+	// BarrierAfterHead: the backend flushes the response head and waits on the barrier before it
+	// produces any body byte (quiet SSE stream / long poll).
+	BarrierAfterHead bool `json:"barrier_after_head,omitempty"`
 	// Fault (for C03/C13): "" | reset-before-headers | hang-before-headers | reset-after-headers |
 	// short-body | garbage | slow-body
 	Fault string `json:"fault,omitempty"`
@@ -333,6 +336,10 @@ func (b *RawBackend) play(c net.Conn, req *http.Request, s *RespScript, ex *exch
 	if !bodyAllowed {
 		_ = w.Flush()
 		return keepAlive
+	}
+	if s.BarrierAfterHead && ex != nil {
+		_ = w.Flush()
+		<-ex.barrier
 	}
 	parts := s.Parts
 	if len(parts) == 0 {
